@@ -1,12 +1,268 @@
-//! C27 — not built yet.
-use crate::runner::{Outcome, Summary};
-use crate::Ctx;
-use serde_json::Value;
+//! C27 — reported memory accesses match each instruction's semantics.
+//!
+//! replay: TLC cases {instr, sigs, judged, want} from spec/mc/MC_MemAccess.tla: the extern signatures are
+//!         declared through PRAGMA EXTERN, `DefaultHandler.memory_accesses(&signature_map, &instr)` is called and
+//!         the three region sets are compared with `want` = MemAccess!Demanded (derived from the operational
+//!         semantics for classical instructions, the rule of the property for the others).  `want` IS the
+//!         property, so a difference is a violation — except for cases the property does not reach
+//!         (`judged` = false: calls with a wrong argument count or an unknown function), where it is divergence.
+//! drive:  seeded random instructions over four regions with deeper expressions and signatures of up to four
+//!         parameters; results recorded for spec/trace/MemAccessTrace.tla.
+//! Shared code (abstraction function) lives in c22.rs.
 
-pub fn replay(_ctx: &Ctx, _case: &Value) -> Outcome {
-    panic!("C27: replay not implemented")
+use super::c22::{abs_instr, not_reproduced, try_real_instr};
+use crate::runner::{Outcome, Summary, Violation};
+use crate::util::{self, s};
+use crate::Ctx;
+use quil_rs::instruction::{DefaultHandler, ExternSignatureMap, Instruction, InstructionHandler};
+use quil_rs::quil::Quil;
+use rand::seq::SliceRandom;
+use rand::Rng;
+use serde_json::{json, Value};
+
+/// {"f": {"ret": bool, "params": [{"mut": bool, "ty": "scalar"|"fixed"|"var"}]}} -> signature map, through the
+/// program's PRAGMA EXTERN table (the route ScheduledBasicBlock::build takes)
+fn signature_map(sigs: &Value) -> Result<ExternSignatureMap, String> {
+    let mut t = String::new();
+    if let Some(m) = sigs.as_object() {
+        for (name, sg) in m {
+            let ps: Vec<String> = sg["params"].as_array().unwrap().iter().enumerate().map(|(n, p)| {
+                let ty = match s(p, "ty").as_str() { "scalar" => "INTEGER", "fixed" => "INTEGER[2]", _ => "INTEGER[]" };
+                format!("p{} : {}{}", n, if p["mut"].as_bool().unwrap() { "mut " } else { "" }, ty)
+            }).collect();
+            let ret = if sg["ret"].as_bool().unwrap() { "INTEGER" } else { "" };
+            let params = if ps.is_empty() { String::new() } else { format!("({})", ps.join(", ")) };
+            let sep = if !ret.is_empty() && !params.is_empty() { " " } else { "" };
+            t.push_str(&format!("PRAGMA EXTERN {name} \"{ret}{sep}{params}\"\n"));
+        }
+    }
+    use std::str::FromStr;
+    let program = quil_rs::Program::from_str(&t).map_err(|e| format!("extern declarations do not parse: {e}"))?;
+    let n = sigs.as_object().map(|m| m.len()).unwrap_or(0);
+    let map = ExternSignatureMap::try_from(program.extern_pragma_map.clone())
+        .map_err(|(p, e)| format!("extern signature not accepted: {} ({e:?})", p.to_quil_or_debug()))?;
+    if program.extern_pragma_map.to_instructions().len() != n {
+        return Err("extern table of the case not reproduced".into());
+    }
+    Ok(map)
 }
 
-pub fn drive(_ctx: &Ctx) -> Summary {
-    panic!("C27: drive not implemented")
+fn set_json<'a>(it: impl Iterator<Item = &'a String>) -> Value {
+    let mut v: Vec<&String> = it.collect();
+    v.sort();
+    json!(v)
+}
+
+fn real_accesses(map: &ExternSignatureMap, i: &Instruction) -> Value {
+    match DefaultHandler.memory_accesses(map, i) {
+        Ok(a) => json!({"reads": set_json(a.reads.iter()), "writes": set_json(a.writes.iter()), "captures": set_json(a.captures.iter())}),
+        Err(_) => json!({"err": "unknown"}),
+    }
+}
+
+fn canon(v: &Value) -> Value {
+    if v.get("err").is_some() {
+        return json!({"err": "unknown"});
+    }
+    let srt = |x: &Value| {
+        let mut a: Vec<String> = x.as_array().map(|a| a.iter().map(|e| e.as_str().unwrap().to_string()).collect()).unwrap_or_default();
+        a.sort();
+        json!(a)
+    };
+    json!({"reads": srt(&v["reads"]), "writes": srt(&v["writes"]), "captures": srt(&v["captures"])})
+}
+
+fn nontrivial(i: &Value) -> bool {
+    // >= 1 memory operand or expression reference: the abstract syntax mentions a region somewhere
+    let t = i.to_string();
+    t.contains("\"mref\"") || t.contains("\"addr\"") || t.contains("\"cond\"") || t.contains("\"operand\"")
+        || t.contains("\"dst\"") || t.contains("\"left\"") || t.contains("\"t\":\"id\"") || t.contains("\"some\":{\"index\"")
+}
+
+fn expr_regions(e: &Value, out: &mut Vec<String>) {
+    match s(e, "t").as_str() {
+        "addr" => out.push(s(&e["m"], "name")),
+        "neg" | "pos" | "fn" => expr_regions(&e["e"], out),
+        "inf" => {
+            expr_regions(&e["l"], out);
+            expr_regions(&e["r"], out);
+        }
+        _ => {}
+    }
+}
+
+/// What the property demands, in Rust (semantics of each instruction kind written out).  Used only to judge the
+/// replay of a recorded history (a rejection of the trace validation); the primary oracle is MemAccess.tla.
+fn rule(i: &Value, sigs: &Value) -> Value {
+    let name = |v: &Value| s(v, "name");
+    let operand = |v: &Value| -> Vec<String> { if v["t"] == "mref" { vec![s(&v["m"], "name")] } else { vec![] } };
+    let mut exprs = vec![];
+    let (mut r, mut w, mut c): (Vec<String>, Vec<String>, Vec<String>) = (vec![], vec![], vec![]);
+    match s(i, "k").as_str() {
+        "Move" => { r = operand(&i["src"]); w = vec![name(&i["dst"])]; }
+        "Convert" => { r = vec![name(&i["src"])]; w = vec![name(&i["dst"])]; }
+        "Arith" | "Logic" => { r = operand(&i["src"]); r.push(name(&i["dst"])); w = vec![name(&i["dst"])]; }
+        "Unary" => { r = vec![name(&i["operand"])]; w = r.clone(); }
+        "Exchange" => { r = vec![name(&i["left"]), name(&i["right"])]; w = r.clone(); }
+        "Compare" => { r = operand(&i["rhs"]); r.push(name(&i["lhs"])); w = vec![name(&i["dst"])]; }
+        "Load" => { r = vec![s(i, "source"), name(&i["offset"])]; w = vec![name(&i["dst"])]; }
+        "Store" => { r = operand(&i["src"]); r.push(name(&i["offset"])); w = vec![s(i, "destination")]; }
+        "JumpWhen" | "JumpUnless" => r = vec![name(&i["cond"])],
+        "Delay" | "RawCapture" => exprs.push(i["duration"].clone()),
+        "SetPhase" | "SetScale" | "ShiftPhase" | "SetFrequency" | "ShiftFrequency" => exprs.push(i["e"].clone()),
+        "Pulse" | "Capture" => exprs.extend(i["wf"].as_array().unwrap().iter().cloned()),
+        "Gate" => exprs.extend(i["params"].as_array().unwrap().iter().cloned()),
+        "Call" => {
+            let sg = &sigs[s(i, "name")];
+            let off = sg["ret"].as_bool().unwrap() as usize;
+            for (k, a) in i["args"].as_array().unwrap().iter().enumerate() {
+                let region = match s(a, "t").as_str() { "id" => s(a, "s"), "mref" => s(&a["m"], "name"), _ => continue };
+                r.push(region.clone());
+                if (off == 1 && k == 0) || (k >= off && sg["params"][k - off]["mut"].as_bool().unwrap_or(false)) {
+                    w.push(region);
+                }
+            }
+        }
+        _ => {}
+    }
+    for e in &exprs {
+        expr_regions(e, &mut r);
+    }
+    match s(i, "k").as_str() {
+        "Capture" | "RawCapture" => c.push(name(&i["mref"])),
+        "Measure" => if let Some(m) = i["target"].get("some") { c.push(name(m)) },
+        _ => {}
+    }
+    for v in [&mut r, &mut w, &mut c] {
+        v.sort();
+        v.dedup();
+    }
+    json!({"reads": r, "writes": w, "captures": c})
+}
+
+pub fn replay(_ctx: &Ctx, case: &Value) -> Outcome {
+    // a violation replay file from trace validation carries the recorded history: re-run it, judged by `rule`
+    let case = match case.get("history") {
+        Some(h) => {
+            let mut e = h.as_array().and_then(|a| a.iter().find(|e| e["ev"] == "acc")).cloned().unwrap_or(Value::Null);
+            e["want"] = rule(&e["instr"], &e["sigs"]);
+            e
+        }
+        None => case.clone(),
+    };
+    let i = match try_real_instr(&case["instr"]) {
+        Ok(i) => i,
+        Err(e) => return not_reproduced(e),
+    };
+    let map = match signature_map(&case["sigs"]) {
+        Ok(m) => m,
+        Err(e) => return not_reproduced(e),
+    };
+    let got = real_accesses(&map, &i);
+    let mut o = Outcome::ok(nontrivial(&case["instr"]));
+    if let Some(w) = case.get("want") {
+        let want = canon(w);
+        if want != got {
+            if case["judged"].as_bool().unwrap_or(true) {
+                let what = if got.get("err").is_some() || want.get("err").is_some() { "memory accesses (ok / error)" }
+                           else if want["reads"] != got["reads"] { "regions read" }
+                           else if want["writes"] != got["writes"] { "regions written" } else { "regions captured" };
+                o.violate(Violation::new(what, want, got).note(i.to_quil_or_debug()));
+            } else {
+                o.diverge(format!("{}: the property does not reach this call; model {want}, code {got}", i.to_quil_or_debug()));
+            }
+        }
+    }
+    o
+}
+
+const REGIONS: &[&str] = &["a", "b", "c", "d"];
+
+fn rref(r: &mut impl Rng) -> String {
+    format!("{}[{}]", REGIONS.choose(r).unwrap(), r.gen_range(0..4))
+}
+
+fn rexpr(r: &mut impl Rng, depth: u32) -> String {
+    if depth == 0 || r.gen_bool(0.3) {
+        return match r.gen_range(0..5) { 0 => "1.5".into(), 1 => "pi".into(), 2 => "%x".into(), _ => rref(r) };
+    }
+    match r.gen_range(0..4) {
+        0 => format!("(-({}))", rexpr(r, depth - 1)),
+        1 => format!("{}({})", ["sin", "cos", "sqrt", "exp", "cis"].choose(r).unwrap(), rexpr(r, depth - 1)),
+        _ => format!("(({}){}({}))", rexpr(r, depth - 1), ["+", "-", "*", "/", "^"].choose(r).unwrap(), rexpr(r, depth - 1)),
+    }
+}
+
+pub fn drive(ctx: &Ctx) -> Summary {
+    if std::env::var("QV_LOUD").is_ok() {
+        let _ = std::panic::take_hook(); // debugging aid: show panic messages of the driver
+    }
+    let n = ctx.arg_u64("n", 300);
+    let path = ctx.arg_str("out").expect("--out");
+    let mut out = std::io::BufWriter::new(std::fs::File::create(path).expect("create trace"));
+    let mut rng = util::rng(ctx.seed, 27);
+    let mut sum = Summary::default();
+    let mut done = 0;
+    while done < n {
+        let r = &mut rng;
+        let reg = |r: &mut rand_chacha::ChaCha8Rng| REGIONS.choose(r).unwrap().to_string();
+        let operand = |r: &mut rand_chacha::ChaCha8Rng| match r.gen_range(0..4) { 0 => "3".to_string(), 1 => "2.5".to_string(), _ => rref(r) };
+        let mut sigs = json!({});
+        let text = match r.gen_range(0..24) {
+            0 => format!("MOVE {} {}", rref(r), operand(r)),
+            1 => format!("{} {} {}", ["ADD", "SUB", "MUL", "DIV"].choose(r).unwrap(), rref(r), operand(r)),
+            2 => format!("{} {} {}", ["AND", "IOR", "XOR"].choose(r).unwrap(), rref(r), if r.gen_bool(0.3) { "1".to_string() } else { rref(r) }),
+            3 => format!("{} {}", ["NEG", "NOT"].choose(r).unwrap(), rref(r)),
+            4 => format!("{} {} {} {}", ["EQ", "GE", "GT", "LE", "LT"].choose(r).unwrap(), rref(r), rref(r), operand(r)),
+            5 => format!("CONVERT {} {}", rref(r), rref(r)),
+            6 => format!("EXCHANGE {} {}", rref(r), rref(r)),
+            7 => format!("LOAD {} {} {}", rref(r), reg(r), rref(r)),
+            8 => format!("STORE {} {} {}", reg(r), rref(r), operand(r)),
+            9 => format!("JUMP-WHEN @t {}", rref(r)),
+            10 => format!("JUMP-UNLESS @t {}", rref(r)),
+            11 => format!("DELAY 0 ({})", rexpr(r, 3)),
+            12 => format!("SET-PHASE 0 \"x\" {}", rexpr(r, 3)),
+            13 => format!("SHIFT-FREQUENCY 0 \"x\" {}", rexpr(r, 3)),
+            14 => format!("PULSE 0 \"x\" flat(duration: {}, iq: {})", rexpr(r, 2), rexpr(r, 3)),
+            15 => format!("NONBLOCKING CAPTURE 0 \"x\" flat(duration: 1.0, iq: {}) {}", rexpr(r, 3), rref(r)),
+            16 => format!("RAW-CAPTURE 0 \"x\" {} {}", rexpr(r, 3), rref(r)),
+            17 => format!("RX({}) 0", rexpr(r, 3)),
+            18 => if r.gen_bool(0.3) { "MEASURE 0".to_string() } else { format!("MEASURE 0 {}", rref(r)) },
+            19 => ["FENCE 0", "RESET", "NOP", "HALT", "PRAGMA p", "SWAP-PHASES 0 \"x\" 1 \"x\""].choose(r).unwrap().to_string(),
+            _ => {
+                // a well-formed call: argument count = parameter count (+ 1 for the return slot)
+                let np = r.gen_range(0..=4);
+                // (a signature with neither return type nor parameters cannot be declared)
+                let ret = np == 0 || r.gen_bool(0.5);
+                let params: Vec<Value> = (0..np).map(|_| {
+                    let ty = *["scalar", "fixed", "var"].choose(r).unwrap();
+                    json!({"mut": r.gen_bool(0.5), "ty": ty})
+                }).collect();
+                sigs = json!({"f": {"ret": ret, "params": params}});
+                let args: Vec<String> = (0..np + ret as usize).map(|_| match r.gen_range(0..5) { 0 => "2".to_string(), 1 | 2 => reg(r), _ => rref(r) }).collect();
+                format!("CALL f {}", args.join(" ")).trim_end().to_string()
+            }
+        };
+        let i = util::instr(&text);
+        let abs = abs_instr(&i).expect("abstraction of a driver instruction");
+        // instructions that combine a cell with itself are outside the judgement (MemAccess!SelfCombining)
+        let same = |x: &Value, y: &Value| x["name"] == y["name"] && x["index"].as_u64().unwrap() % 2 == y["index"].as_u64().unwrap() % 2;
+        let self_combining = match s(&abs, "k").as_str() {
+            "Arith" | "Logic" => abs["src"]["t"] == "mref" && same(&abs["src"]["m"], &abs["dst"]),
+            "Compare" => abs["rhs"]["t"] == "mref" && same(&abs["rhs"]["m"], &abs["lhs"]),
+            _ => false,
+        };
+        if self_combining {
+            continue;
+        }
+        done += 1;
+        let map = signature_map(&sigs).expect("driver signature");
+        let got = real_accesses(&map, &i);
+        util::emit(&mut out, &json!({"ev": "reset"}));
+        util::emit(&mut out, &json!({"ev": "acc", "instr": abs, "sigs": sigs, "res": got}));
+        let mut o = Outcome::ok(nontrivial(&abs));
+        o.count_n("events", 2);
+        sum.absorb(&json!({"text": text, "sigs": sigs}), &o, true);
+    }
+    sum
 }
